@@ -1,8 +1,11 @@
 (* C15: the mirrored four-pass bench reader (Model/Bench.v, over Base/Api.v) returns the closed form for every well-formed line list. *)
 From stdpp Require Import strings gmap sets fin_sets.
-From CG Require Import Proofs.ApiProofs.
+From CG Require Import Base.Api.
 From CG Require Import Model.Bench Model.BenchSpec Proofs.BenchProofs.
 Open Scope string_scope.
+
+Lemma add_edge_lookup c u v n : add_edge c u v !! n = if decide (n = v) then upd_fi (λ s, {[u]} ∪ s) <$> c !! n else c !! n.
+Proof. unfold add_edge. destruct (decide (n = v)) as [->|Hne]; [by rewrite lookup_alter|by rewrite lookup_alter_ne]. Qed.
 
 Definition name_ok (n : string) : Prop := n ≠ "" ∧ starts_digit n = false.
 
